@@ -385,14 +385,32 @@ META = {
             "and A X = I, det = sign*prod u_ii with lndet/sgndet agreeing; zero column / duplicated rows / vanishing pivot => "
             "failure; the analogous LDL^T (A = L D L^T, singular => failure) and Cholesky (A = L L^T, l_ii > 0, non-positive or "
             "small pivot => failure) families. PARTIAL (named _partial): residuals are exactly 0 over R; the floating-point "
-            "componentwise rounding bounds are measured by an exact-rational oracle on the C output, not proved. PROVED in the "
+            "componentwise rounding bounds are measured by an exact-rational oracle on the C output, and proved only where stated "
+            "next. PROVED in the "
             "rounding model (same term at a NumOps whose add/sub/mul/div round with any rnd obeying |rnd x - x| <= eps|x| + eta, "
             "binary64 RNE with eps = 2^-53, eta = 2^-1075 by Flocq, overflow excluded), for every n with n*eps < 1, for the "
-            "TRIANGULAR SOLVES ONLY (plu/ldl/llt lower and upper and their composition in plu/ldl/llt_solve on GIVEN factors): "
+            "TRIANGULAR SOLVES (plu/ldl/llt lower and upper and their composition in plu/ldl/llt_solve on GIVEN factors): "
             "Higham Thm 8.5, componentwise residual |b - T x^|_r <= gamma_k (|T||x^|)_r + (3k + |t_rr|)(1 + gamma_k) eta with "
             "k <= n (k = r, n-r or r+1 by routine; gamma_k = k eps/(1 - k eps)), equivalently (T + dT) x^ = b + db exactly with "
-            "|dT| <= gamma_k |T|, |db| = O(n) eta; the factorisations' own backward error (|PA - LU| <= gamma_n |L||U| etc., "
-            "hence solve/inverse against the ORIGINAL A) stays measured, not proved. Tie: the same "
+            "|dT| <= gamma_k |T|, |db| = O(n) eta; AND for the three FACTORISATIONS themselves (coq/C08/RoundFactor.v, "
+            "RoundFactor64.v, 13 theorems C08_llt/ldl/plu_backward_error[_uniform|_binary64], "
+            "C08_plu_multipliers_monotone_rounding, C08_llt_factor_solve_stages, C08_llt_solve_end_to_end[_binary64]), for every order and every input on which the "
+            "ROUNDED run returns success (its pivot tests and its pivot search see the rounded values; the run is also shown "
+            "total and inside its buffers): Cholesky |A - L^ L^^T|_rc <= gamma_{n+1} (|L^||L^|^T)_rc + (3(n+1) + 2|l_cc| + eta)"
+            "(1 + gamma_{n+1}) eta on the triangle the code reads (Higham Thm 10.3; cell-wise constants gamma_{c+1} below the "
+            "diagonal, gamma_{r+2} on it; needs (n+1)*eps < 1 and eta^2 < (1-eps)^2 tiny, which makes every computed l_cc > 0 and "
+            "holds in binary64 for tiny = DBL_MIN), LDL^T |A - L^ D^ L^^T|_rc <= gamma_n (|L^||D^||L^|^T)_rc + (3n + sum_{i<=c} "
+            "|d_i|)(1 + gamma_n) eta with |d_c| >= tiny (cell-wise gamma_{c+2} / gamma_{c+1}), PLU with the permutation p the "
+            "rounded run chooses |P A - L^ U^|_rc <= gamma_n (|L^||U^|)_rc + (3n + |u_cc|)(1 + gamma_n) eta for every cell (Higham "
+            "Thm 9.3; cell-wise gamma_r / gamma_{c+1}), p a permutation, sign its parity, |u_cc| >= tiny, every multiplier = rnd x "
+            "with |x| <= 1, hence |l_rc| <= 1 for every monotone odd rounding that fixes 1 (binary64 RNE) and <= 1 + eps + eta "
+            "under the error model alone; a_real_llt followed by a_real_llt_solve stage by stage (factor against A, both "
+            "substitutions against the computed factor) and in ONE statement (Higham Thm 10.4, needs (3n+1)*eps < 1): the computed "
+            "x^ solves (A + dA) x^ = b + db exactly, A read as the symmetric matrix of its lower triangle, |dA|_rk <= gamma_{3n+1} "
+            "(|L^||L^|^T)_rk + (3(n+1) + 2|l_mm| + eta)(1 + gamma_{n+1}) eta, |db| = O(n) eta explicit and 0 when eta = 0. "
+            "Non-vacuity: 2x2 runs with the inexact rounding v -> v(1 + 1/8) whose residuals are non-zero and below the bounds. "
+            "NOT proved in the rounding model: the combined statement (A + dA) x^ = b for PLU and LDL^T factorisation + solve "
+            "(Higham Thm 9.4), the inverses, the determinants; these stay measured by the exact-rational oracle. Tie: the same "
             "polymorphic term at PrimFloat (vm_compute) vs the C bit for bit on all 34 routines incl. lndet (libm log logged "
             "via --wrap and supplied to the model). Differential test, not a theorem: the glue run (tools/vglue.py, "
             "harness/glue/cfg_C08.c) builds the three families for a_real = float, double and long double with ASan/UBSan and runs "
@@ -412,7 +430,10 @@ META = {
             "lemmas; signed int objects (the sign) are carried in Z with every result checked to be an int, so plu_sgndet is tied for "
             "every sign but INT_MIN (whose negation is undefined in C).",
     "note": "Trusted: Coq kernel/vm_compute with primitive floats and ints; real-number axioms listed by Print Assumptions; "
-            "the 'same term, different NumOps record' argument between R and binary64; running-pointer walks modelled by "
+            "the 'same term, different NumOps record' argument between R and binary64 (the rounding-model theorems are about "
+            "Rnd8_ops rnd tiny = exact operation followed by rnd with no overflow threshold; that a binary64 run without "
+            "overflow/NaN computes exactly those values rests on RoundFlocq.prim_*_rnd64 operation by operation and is not "
+            "composed into a theorem about whole F64_ops runs); running-pointer walks modelled by "
             "closed-form cell indices, a_uint as nat; hand-written model tied bit for bit on generated matrices (orders 1-12 "
             "quick, 1-24 thorough) and by the translator ties (unrolled: orders 0..4; loops as Fixpoints: every order), in which the "
             "translators tools/c2coq.py and tools/c2arr.py are trusted to read the C right - their output is proved equal to the model, "
